@@ -236,4 +236,35 @@ example : True := by
   · have : esEx.flatMap (mediaEntries "default".toList) = [] := by rfl
     rw [this]; simp
 
+/-! ### hints written on a group or repeat row -/
+
+/-- **a section's hint is shown nowhere**: whatever is written in the hint / guidance-hint cells of a `begin group` /
+`begin repeat` row, the section's own texts contain no hint and no guidance hint in any language (sections have no `<hint>`). -/
+theorem section_hint_not_shown (T : List Entry) (padIds view : List Str) (e : Elem) (hk : e.kind = .group) :
+    ∀ x ∈ elemTexts T padIds view e, x.1 ≠ s "hint" ∧ x.1 ≠ s "guidance_hint" := by
+  intro x hx
+  unfold elemTexts at hx
+  simp only [hk, List.mem_flatMap, List.mem_filterMap, Option.map_eq_some_iff] at hx
+  obtain ⟨⟨kind, src, form⟩, hp, lang, _, tx, hv, rfl⟩ := hx
+  simp only [List.mem_append, List.mem_cons, List.mem_nil_iff, or_false, Prod.mk.injEq, List.not_mem_nil] at hp
+  rcases hp with (((⟨rfl, _, _⟩ | hm) | ⟨rfl, rfl, rfl⟩) | hg) | (⟨rfl, _, _⟩ | ⟨rfl, _, _⟩)
+  · exact ⟨by simp only; decide, by simp only; decide⟩
+  · split at hm
+    · simp only [mediaKinds, List.map_cons, List.map_nil, List.mem_cons, List.mem_nil_iff, or_false, Prod.mk.injEq] at hm
+      rcases hm with ⟨rfl, _⟩ | ⟨rfl, _⟩ | ⟨rfl, _⟩ | ⟨rfl, _⟩ <;> exact ⟨by simp only; decide, by simp only; decide⟩
+    · simp at hm
+  · simp [via] at hv
+  · simp at hg
+  · exact ⟨by simp only; decide, by simp only; decide⟩
+  · exact ⟨by simp only; decide, by simp only; decide⟩
+
+def grpEx : Elem :=
+  { key := "s0".toList, path := "/data/g".toList, kind := .group, label := .str "G".toList,
+    hint := .dict (.cons "fr".toList (.str "Hfr".toList) .nil), guidance := .none, media := .none, bind := .none }
+
+/-- non-vacuity: a group with a translated hint shows its label, and no hint -/
+example : (s "label", "fr".toList, "G".toList) ∈ elemTexts (getTranslations "default".toList grpEx) [] ["fr".toList] grpEx ∧
+    ∀ x ∈ elemTexts (getTranslations "default".toList grpEx) [] ["fr".toList] grpEx, x.1 ≠ s "hint" ∧ x.1 ≠ s "guidance_hint" :=
+  ⟨by decide, section_hint_not_shown _ _ _ _ rfl⟩
+
 end Pyxv.C08
